@@ -24,6 +24,7 @@ def crafted(rng):
     return ('sf:1', {'lmf_version': '1.1', 'lexicons': [lx]})
 
 
+XFORMS = [['Hounds', 'hound'], ['mice'], ['Über'], ['uber', 'mice']]
 LEM = {'cats': {'n': ['cat'], 'v': ['cat', 'cats']}, 'running': {'v': ['run'], '': ['running']}, 'ran': {'v': ['run', 'Ran']},
        'dogs': {'n': ['dog', 'Dog']}, 'Cat': {}, 'Dogs': {'n': ['Dog'], 'v': ['Dog']}, 'Poles': {'n': ['Pole'], 'v': ['Pole']},
        'Résumés': {'n': ['Résumé'], 'v': ['Résumé'], 'a': ['Résumé']}, 'poles': {'': ['pole', 'poles']}}
@@ -38,7 +39,15 @@ def tweak(rng, u):
     if rng.random() < 0.5:
         r2['lexicons'][0]['entries'] = r2['lexicons'][0]['entries'][::-1]
     u['resources'].append(('sf:2', r2))
-    u['searches'] = [[f, p] for f in rng.sample(coremodel.SEARCH_FORMS, 10) + ['Dogs', 'Poles', 'Résumés', 'poles', 'POLE', 'Résumé', 'dogs'] for p in rng.sample([None, None, 'n', 'v', 'a', 'x'], 2)]
+    # an extension of sf:1 that adds further (non-lemma) forms to entries of its base: they are forms, not lemmas
+    xent = []
+    for k, e in enumerate(u['resources'][-2][1]['lexicons'][0]['entries'][:4]):
+        xent.append({'id': e['id'], 'external': True,
+                     'forms': [{'writtenForm': nf, 'id': 'sfx-f%d-%d' % (k, j)} for j, nf in enumerate(XFORMS[k])]})
+    ext = {'id': 'sfx', 'label': 'ext of sf', 'language': 'en', 'email': 'e', 'license': 'l', 'version': '1', 'meta': None,
+           'extends': {'id': 'sf', 'version': '1'}, 'entries': xent, 'synsets': []}
+    u['resources'].append(('sfx:1', {'lmf_version': '1.1', 'lexicons': [ext]}))
+    u['searches'] = [[f, p] for f in rng.sample(coremodel.SEARCH_FORMS, 10) + ['Dogs', 'Poles', 'Résumés', 'poles', 'POLE', 'Résumé', 'dogs', 'mice', 'Hounds', 'hound', 'uber', 'Über'] for p in rng.sample([None, None, 'n', 'v', 'a', 'x'], 2)]
     u['translate_to'] = None
     cfgs = []
     base = rng.choice([n for n, _ in u['resources']])
@@ -51,7 +60,9 @@ def tweak(rng, u):
                 cfgs.append(c)
     rng.shuffle(cfgs)
     u['configs'] = cfgs[:9] + [{}, {'lang': 'en'}, {'lexicon': 'sf:1 sf:2', 'expand': ''},
-                               {'lexicon': 'sf:*', 'expand': '', 'normalizer': rng.random() < 0.5, 'lemmatizer': LEM}]
+                               {'lexicon': 'sf:*', 'expand': '', 'normalizer': rng.random() < 0.5, 'lemmatizer': LEM},
+                               {'lexicon': 'sf:1 sfx:1', 'expand': '', 'search_all_forms': False},
+                               {'lexicon': 'sf:1 sfx:1', 'expand': '', 'search_all_forms': True, 'normalizer': rng.random() < 0.5}]
 
 
 def run(rep, tier, build, replay=None):
